@@ -28,8 +28,9 @@ def field_names(P, fn):
 
 
 class Profile:
-    def __init__(self, P, fn):
+    def __init__(self, P, fn, _seen=None):
         self.fn = fn
+        _seen = set(_seen or ()) | {fn.id}
         names = field_names(P, fn)
         so = SelfOrigins(P, fn)
 
@@ -64,6 +65,16 @@ class Profile:
                 if f.get("trait"):
                     st = P.tstr(body.crate, f["self_ty"]) if "self_ty" in f else "?"
                     self.tcalls.append((f["trait"], last, recv, st))
+                # a private inherent method of the same type called on self is part of this method's behaviour
+                g = P.fns.get(f["id"])
+                if (g is not None and g.id not in _seen and g.kind == "method" and g.impl and not g.impl.get("trait") and not g.pub
+                        and fn.impl and g.impl.get("self") is not None and g.crate == fn.crate
+                        and P.tstr(g.crate, g.impl["self"]) == P.tstr(fn.crate, fn.impl["self"]) and recv == "self"):
+                    hp = Profile(P, g, _seen)
+                    self.fields |= hp.fields
+                    self.tcalls += hp.tcalls
+                    self.callees += hp.callees
+                    self.panics = self.panics or hp.panics
 
     def trait_calls(self, trait):
         return [(m, r, st) for (tr, m, r, st) in self.tcalls if tr == trait]
@@ -183,6 +194,13 @@ def run_runtime_matrix(P, rep, rows=None, methods=None, rule="R-FWD.runtime"):
 
 
 def check_cell(P, rep, rule, nm, m, fn, spec, trait, parent_field=None):
+    # a cell is what the method does, private helpers included: expand them in place before profiling
+    import inline
+    hs = inline.helpers_of(P, [fn], depth=1)
+    if hs:
+        fn2, n2 = inline.inlined(P, fn, frozenset(hs))
+        if n2:
+            fn = fn2
     pr = Profile(P, fn)
     site = "%s::%s" % (nm.rsplit("::", 1)[-1], m)
     where = P.where(fn)
